@@ -43,7 +43,7 @@ ASSUMPTIONS = [
 QUICK = ["tiny_q", "s3_q", "s4k2_q", "s4k3_q", "chg_q", "scale_q", "fine4_q", "fine5_q", "forms_q", "loose_q",
          "dupl_q", "dupl2_q"]
 THOROUGH = ["tiny_q", "s3_q", "s3_t", "s4k2_q", "s4k3_q", "s4k3_t", "s5_t", "chg_q", "chg_t", "scale_q",
-            "fine4_q", "fine5_q", "forms_q", "loose_q",
+            "fine4_q", "fine5_q", "forms_q", "forms_t", "loose_q", "loose_t",
             "dupl_q", "dupl2_q", "dupl_t"]
 ACTIONS = {
     "tiny_q": ["GenShape", "GenSetEntry", "Classify", "GenMode", "ChooseForm", "GenAccept"],
@@ -52,7 +52,7 @@ ACTIONS = {
 # replay budget (problems x modes) per slice: None = everything
 QUICK_PER_SLICE = 400
 QUICK_PER_SLICE_SPECIAL = {"fine4_q": 200}
-THOROUGH_PER_SLICE = {"forms_q": 8000, "loose_q": 6000, "fine4_q": 3000, "s3_q": 6000, "s3_t": 12000,
+THOROUGH_PER_SLICE = {"forms_q": 4000, "forms_t": 6000, "loose_q": 3000, "loose_t": 4000, "fine4_q": 3000, "s3_q": 6000, "s3_t": 12000,
                       "s4k3_t": 16000, "chg_t": 12000, "s5_t": 6000, "dupl_t": 6000}
 
 # atomic number standing for row k (the charge row is key 0)
